@@ -479,8 +479,8 @@ fn gen_value(r: &mut Rng, ops: &mut Vec<Vec<Tok>>, db: i64, key: &[u8], ty: u64,
         0 => { let v = blob(r, n); push(ops, "SET", vec![bv(&v), Tok::I(ttl)]); return; }
         1 => {
             let mut els: Vec<Vec<u8>> = if n > 200 { distinct(r, n) } else { (0..n.max(1)).map(|_| small(r)).collect() };
-            // the head of a list is never the marker in the regular stream (class marker-collision has its own cases)
-            if els[0] == MARKER { els[0] = b"head".to_vec(); }
+            // lists that start with the stream marker are ordinary citizens since 6aaeb35
+            if r.chance(1, 12) { els[0] = MARKER.to_vec(); }
             for ch in els.chunks(5000) { push(ops, "RPUSH", ch.iter().map(|x| bv(x)).collect()); }
         }
         2 => {
@@ -504,7 +504,7 @@ fn gen_value(r: &mut Rng, ops: &mut Vec<Vec<Tok>>, db: i64, key: &[u8], ty: u64,
         _ => {
             let mut ms = r.below(3) as u64; let mut sq = 1 + r.below(3) as u64;
             for _ in 0..n.max(1) {
-                let nf = if n > 50 { 1 } else { 1 + r.below(3) as usize };
+                let nf = if n > 50 { 1 } else { r.below(4) as usize };     // 0 fields: storage API only (31c6d8d)
                 let mut a = vec![Tok::I(ms as i128), Tok::I(sq as i128)];
                 for f in 0..nf { let fname = if r.chance(1, 4) { small(r) } else { format!("f{}", f).into_bytes() }; a.push(bv(&fname)); a.push(bv(&small(r))); }
                 push(ops, "XADD", a);
@@ -598,6 +598,12 @@ pub fn gen(seed: u64, n: usize, tier: &str) -> Vec<Case> {
             let ttl = gen_ttl(&mut r, down);
             gen_value(&mut r, &mut ops, db, &key, ty, sz, ttl);
             if r.chance(1, 10) {
+                // a stream emptied again (the key stays, 1a77fe9)
+                let sk = r.pick(&pool).clone();
+                let mut o = op_t("XADD"); o.push(i(db)); o.push(bv(&sk)); o.push(i(1)); o.push(i(1)); o.push(bv(b"f")); o.push(bv(b"v")); ops.push(o);
+                let mut o = op_t("XDEL"); o.push(i(db)); o.push(bv(&sk)); o.push(i(1)); o.push(i(1)); ops.push(o);
+            }
+            if r.chance(1, 10) {
                 // a sorted-set member re-scored, an element repeated in a set, a hash field overwritten
                 for sc in [0x3ff0000000000000u64, *r.pick(SCORES)] { let mut o = op_t("ZADD"); o.push(i(db)); o.push(bv(&key)); o.push(bv(b"rescored")); o.push(Tok::I(sc as i128)); ops.push(o); }
             }
@@ -630,24 +636,25 @@ pub fn gen(seed: u64, n: usize, tier: &str) -> Vec<Case> {
         ops.push(op_t("RELOAD")); ops.push(op_t("DUMP"));
         add("expired-before-save", ops, &mut id);
     }
-    // (e) the known classes, kept apart from the regular stream
+    // (e) regression cases of the repaired classes marker-collision (6aaeb35), empty-stream-lost
+    // (1a77fe9), stream-entry-without-fields (31c6d8d)
     {
         let mut ops = vec![];
         let mut o = op_t("RPUSH"); o.push(i(0)); o.push(bv(b"l")); o.push(bv(MARKER)); o.push(bv(b"x")); ops.push(o);
         let mut o = op_t("RPUSH"); o.push(i(0)); o.push(bv(b"l2")); o.push(bv(MARKER)); o.push(bv(b"1-1")); o.push(bv(b"1")); o.push(bv(b"f")); o.push(bv(b"v")); ops.push(o);
         tail(&mut ops, 0);
-        add("class-marker", ops, &mut id);
+        add("regress-marker", ops, &mut id);
         let mut ops = vec![];
         let mut o = op_t("XADD"); o.push(i(0)); o.push(bv(b"st")); o.push(i(5)); o.push(i(1)); o.push(bv(b"f")); o.push(bv(b"v")); ops.push(o);
         let mut o = op_t("XDEL"); o.push(i(0)); o.push(bv(b"st")); o.push(i(5)); o.push(i(1)); ops.push(o);
         tail(&mut ops, 0);
-        add("class-emptystream", ops, &mut id);
+        add("regress-emptystream", ops, &mut id);
         let mut ops = vec![];
         let mut o = op_t("XADD"); o.push(i(0)); o.push(bv(b"st")); o.push(i(5)); o.push(i(1)); o.push(bv(b"f")); o.push(bv(b"v")); ops.push(o);
         let mut o = op_t("XADD"); o.push(i(0)); o.push(bv(b"st")); o.push(i(6)); o.push(i(0)); ops.push(o);   // an entry without fields, last
         let mut o = op_t("SET"); o.push(i(0)); o.push(bv(b"zz")); o.push(bv(b"after")); o.push(i(-1)); ops.push(o);
         tail(&mut ops, 0);
-        add("class-nofields", ops, &mut id);
+        add("regress-nofields", ops, &mut id);
     }
     cases
 }
@@ -680,25 +687,10 @@ fn parse_dump(t: &[Tok]) -> Option<Vec<KeyRow>> {
     Some(rows)
 }
 
-fn class_of(before: &KeyRow) -> Option<&'static str> {
-    match before.val.first() {
-        Some(Tok::I(1)) => if before.val.get(2).map(|x| x == &bv(MARKER)).unwrap_or(false) { Some("marker-collision") } else { None },
-        Some(Tok::I(4)) => {
-            // a member with two nodes (a member re-scored while its score was NaN: C04's defect)
-            let n = tok_int(&before.val[1]) as usize;
-            let mut seen = std::collections::HashSet::new();
-            for j in 0..n { if !seen.insert(tok_bytes(&before.val[2 + 2 * j]).to_vec()) { return Some("zset-nan-duplicate-node"); } }
-            None
-        }
-        Some(Tok::I(5)) => {
-            if before.val.get(1) == Some(&i(0)) { return Some("empty-stream-lost"); }
-            // an entry without fields
-            let mut p = 2; let n = tok_int(&before.val[1]);
-            for _ in 0..n { let nf = tok_int(&before.val[p + 2]); if nf == 0 { return Some("stream-entry-without-fields"); } p += 3 + 2 * nf as usize; }
-            None
-        }
-        _ => None,
-    }
+fn class_of(_before: &KeyRow) -> Option<&'static str> {
+    // every class this oracle used to recognise by the shape of the dataset (marker head, empty
+    // stream, entry without fields, NaN duplicate) has been repaired in /repo
+    None
 }
 
 /// C09 on the implementation alone: the dump after (save, restart) equals the dump before,
